@@ -671,6 +671,7 @@ class Curve(BaseCurve):
         newvector = tuple(self.knotvector + nodes)
         if self.ctrlpoints is None and self.weights is None:
             self.knotvector = newvector
+            return
         matrix = heavy.Operations.knot_insert(oldvector, nodes)
         self.apply(newvector, matrix)
 
